@@ -40,6 +40,15 @@
 using namespace vh;
 typedef SimTK::MultibodyGraphMaker MGM;
 
+// This workload is millions of tiny allocations. With ASan's default 256 MB quarantine no freed
+// block is ever reused and every allocation touches fresh pages: measured 40x slower (and half
+// of it system time) on the shared machine. 8 MB still keeps the blocks of several hundred
+// consecutive cases poisoned, far more than the lifetime of any object here. (Flags given in
+// the ASAN_OPTIONS environment variable still override these.)
+#if defined(__SANITIZE_ADDRESS__) || defined(VH_ASAN)
+extern "C" const char* __asan_default_options() { return "quarantine_size_mb=8:thread_local_quarantine_size_kb=256"; }
+#endif
+
 // ------------------------------------------------------------------ joint types
 struct TypeDef { const char* name; int dof; bool goodLoop; bool reserved; };
 static const TypeDef TYPES[] = {
@@ -657,7 +666,7 @@ static std::string bucket(int v, bool exact) {
 static std::string cap(int v, int m) { return v >= m ? std::to_string(m) + "+" : std::to_string(v); }
 
 // ------------------------------------------------------------------ one case
-static void runGraph(Ctx& c, const Input& in, bool enumerated, bool sampleIt) {
+static void runGraph(Ctx& c, const Input& in, bool enumerated, bool sampleIt, bool secondObject) {
     KEY(K_build, "exception:while_adding_bodies_and_joints");
     KEY(K_edit, "edit:delete_call_reported_failure");
     KEY(K_errOther, "error:undocumented_exception_from_generateGraph");
@@ -731,6 +740,7 @@ static void runGraph(Ctx& c, const Input& in, bool enumerated, bool sampleIt) {
             }
             // (2) an independent object built from the same input gives the same graph;
             // (3) generateGraph called again without clearGraph leaves the same graph
+            if (secondObject) {
             c.setPhase("second object");
             MGM B;
             buildPlain(B, in);
@@ -752,6 +762,7 @@ static void runGraph(Ctx& c, const Input& in, bool enumerated, bool sampleIt) {
                 }
             }
             W.g = &A;
+            }
         }
         outcome = std::string("ok.s") + cap(st.slaves, 3) + "c" + cap(st.loopCons, 3) + "a" + cap(st.added, 3) + "r" + cap(st.reversed, 2) + (st.groundSplit ? "G" : "");
     } else {
@@ -997,6 +1008,7 @@ int main(int argc, char** argv) {
     if (a.prop != "C42") { fprintf(stderr, "mon_graph: unknown property %s\n", a.prop.c_str()); return 2; }
     const std::string spec = a.get("enum", "1:0-3:F,2:0-2:F");
     const int nworkers = (int)std::max(1L, a.getInt("nworkers", 1));
+    const long second = a.getInt("second", 1);  // enumerated cases: second-object oracles on every Nth case
     const bool dry = a.getInt("dry", 0) != 0;   // count the enumerated cases only (calibration aid)
     uint64_t E = 0;
     std::vector<Block> blocks = parseEnum(spec, E);
@@ -1045,7 +1057,7 @@ int main(int argc, char** argv) {
                 if (dry) continue;
                 runOne((long)gidx, [&] {
                     const Input in = enumInput(cur, m, n, flag, gidx);
-                    runGraph(c, in, true, (gidx % 9973) == 0 || a.verbose);
+                    runGraph(c, in, true, (gidx % 9973) == 0 || a.verbose, second <= 1 || gidx % (uint64_t)second == 0);
                 });
             }
         }
@@ -1063,7 +1075,7 @@ int main(int argc, char** argv) {
             Rng r(mix(a.seed, (uint64_t)idx));
             const Input in = randomInput(r, idx - (long)E);
             c.obs("random_cases_run");
-            runGraph(c, in, false, ((idx - (long)E) % 97) == 0 || a.verbose);
+            runGraph(c, in, false, ((idx - (long)E) % 97) == 0 || a.verbose, true);
         });
     }
     return c.finish();
